@@ -783,11 +783,20 @@ def analyse(ck, hbuf, failures):
     items = [(k, v[0]) for k, v in cands.items()]
     rr = replay_recs(hbuf, items)
     confirmed = []
+    aborting = {k for k in cands if rr[k][0] == -3}
+
+    def hist_key(h):
+        return json.dumps([h[0]["op"]["su"]["id"]] + [op_sig(r["op"]) for r in h[1:]], sort_keys=True)
+
     for k, (h, meta, step, actual) in cands.items():
         st, act = rr[k]
         if st == -1:
             continue                       # this member of a failed chain is fine on its own
         if st == -3:
+            # the process died somewhere in this history: it belongs to its last operation only if no proper
+            # prefix (a candidate of its own) dies already
+            if any(hist_key(h[:m]) in aborting for m in range(2, len(h))):
+                continue
             confirmed.append((h, len(h) - 1, act, True))
         elif st == len(h) - 1:
             confirmed.append((h, st, act, False))
